@@ -89,15 +89,24 @@ def check_role(role: str, sl: T.Term, op: str, o: Outcome, ctx: Dict[str, Any]) 
         ft = ("sym", "full_time", "timedelta")
         mins = ("app", "truediv", ("app", ".total_seconds", ft), c(60))
         want = Lin({("app", "int", ("app", "floordiv", mins, c(60))): 3600, ("app", "int", ("app", "mod", mins, c(60))): 60}, 0)
-        if Lin.of(v) != want:
-            return False, f"auto-off seconds are {T.show(v)[:200]}, expected 3600*int(hours) + 60*int(minutes) of total_seconds()/60"
+        # second accepted form: 60 * int(total_seconds() // 60).  Lemma (floats): total_seconds() has microsecond
+        # resolution and is < 2**17 on the accepted domain, so t/60 is at least 1.6e-8 away from any integer it does
+        # not equal, far more than one ulp (2.3e-13): floor(t/60) == t//60, and 60*h + m == floor(t/60).
+        want_b = Lin({("app", "int", ("app", "floordiv", ("app", ".total_seconds", ft), c(60))): 60}, 0)
+        got = Lin.of(v)
+        if got not in (want, want_b):
+            for w_ in (want, want_b):
+                if set(got.coef) == set(w_.coef):
+                    return False, f"auto-off seconds are {T.show(v)[:200]}: the same terms as the accepted form {T.show(w_.term())[:120]} with other factors"
+            return None, (f"auto-off seconds are computed as {T.show(v)[:200]}, which is neither 3600*int(hours) + 60*int(minutes) of total_seconds()/60 nor 60*int(total_seconds()//60); "
+                          f"whether another float arithmetic is equal on the domain cannot be decided here")
         lo, hi = F.int_bounds_from_guard(pc, v)
         return (lo, hi) == (3600, 86340), f"auto-off accepted for seconds in [{lo},{hi}], expected exactly [3600, 86340] (1h..23h59m)"
     if role == "ARG:name":
         name = ("sym", "name", "str")
         ulen = ("len", ("utf8", ("whole", name)))
-        want = (("hexof", ("utf8", ("whole", name))), ("rep", "00", Lin({ulen: -1}, 32).term()))
-        if atoms != want:
+        want = T.seq("s", (("hexof", ("utf8", ("whole", name))), ("rep", "00", Lin({ulen: -1}, 32).term())))[2]
+        if T.normalise_atoms(tuple(atoms)) != want:
             return False, f"name field is {T.show(sl)[:200]}, expected hex(utf8(name)) ++ '00'*(32 - utf8len(name))"
         lo, hi = F.int_bounds_from_guard(pc, ulen)
         return (lo, hi) == (2, 32), f"names accepted for UTF-8 length in [{lo},{hi}], expected [2,32]"
@@ -229,7 +238,9 @@ def run(prog: Program, rep: Report, tier: str) -> None:
                 rep.check(nw <= 1, "R2.4", f"{op}: {o.exc_name} from {fn}", origin,
                           f"an argument rejected by {fn} raises only after {nw} frames were written (the command frame is already on the wire)",
                           "rejection raises with only the login frame written", key=f"R2.4|{op}|{fn}|late")
-                want = [(x, f_) for (x, f_) in want if not (x == o.exc_name and f_ == fn)]
+                # the rejection may be raised by a helper the encoder calls: any frame of the raise's call stack counts
+                frames = {fn} | {f for stk in getattr(I, "raise_stacks", {}).get(origin, ()) for f in stk}
+                want = [(x, f_) for (x, f_) in want if not (x == o.exc_name and f_ in frames)]
         for x, f_ in want:
             rep.bad("R2.4", f"{op}: missing rejection {x} from {f_}", where_op,
                     f"no path of {op} raises {x} from {f_}: out-of-domain arguments are no longer refused", key=f"R2.4|{op}|{f_}|missing")
